@@ -7,6 +7,8 @@
 (*     matched the overlap text is such a suffix                              *)
 (* Strict = FALSE prints the broken clause of every rejected line.            *)
 EXTENDS Overlap, Json
+RU == INSTANCE OverlapReuse WITH Texts <- {}, Size <- 0, MaxChunks <- 0, Memo <- "none", Touch <- "contract",
+                             asked <- <<>>, memo <- <<>>, given <- <<>>, now <- <<>>, pass <- 0
 
 CONSTANT Strict
 
@@ -37,6 +39,31 @@ TraceOverlap ==
     /\ l' = l + 1
     /\ UNCHANGED vars
 
-TraceSpec == TraceInit /\ [][TraceOverlap]_tvars
+\* Reuse {api, same}: a call on a reused generator compared with a fresh one
+TraceReuse ==
+    /\ l <= Len(Trace) /\ Ev.event = "Reuse"
+    /\ \/ Ev.same
+       \/ (~Ev.same /\ ~Strict /\ Report("reuse"))
+    /\ l' = l + 1
+    /\ UNCHANGED vars
+
+\* Frame {changed, kept}: what one ApplyOverlapToChunks call changed in the chunks
+\* it was given (per chunk: names of the fields that differ, and whether the text
+\* still ends with the text that was given)
+FrameClauseOf(e) ==
+    LET bad == {k \in 1..Len(e.changed) : RU!FrameClause(k, {e.changed[k][j] : j \in 1..Len(e.changed[k])}, e.kept[k]) # ""}
+    IN IF bad = {} THEN ""
+       ELSE LET k == CHOOSE x \in bad : \A y \in bad : x <= y
+            IN RU!FrameClause(k, {e.changed[k][j] : j \in 1..Len(e.changed[k])}, e.kept[k])
+
+TraceFrame ==
+    /\ l <= Len(Trace) /\ Ev.event = "Frame"
+    /\ LET cl == FrameClauseOf(Ev) IN
+         \/ cl = ""
+         \/ (cl # "" /\ ~Strict /\ Report(cl))
+    /\ l' = l + 1
+    /\ UNCHANGED vars
+
+TraceSpec == TraceInit /\ [][TraceOverlap \/ TraceReuse \/ TraceFrame]_tvars
 TraceAccepted == TLCGet("stats").diameter - 1 = Len(Trace)
 =============================================================================
